@@ -275,9 +275,9 @@ SPECS = {
                 rule="random grammars whose inner nodes are mostly repeated/separated_by with every finisher "
                      "(collect Vec/usize/(), collect_exactly, foldl, foldr, *_with, unit) and adaptors (enumerate, map, "
                      "map_with), bounds 0..5, both flags; non-trivial = non-empty input and an iteration node present"),
-    "C03": Spec("C03", CORE + ITER + RECOVER + EMIT + ["ExtWrap"], obs_errs, sem_obs=lambda r: (r.kind,), ekinds=("rich", "empty"), extra=contract_oracle,
+    "C03": Spec("C03", CORE + ITER + RECOVER + EMIT + ["ExtWrap"] + ["Lazy"] * 2, obs_errs, sem_obs=lambda r: (r.kind,), ekinds=("rich", "empty"), extra=contract_oracle,
                 nontrivial=lambda g, inp: len(inp) > 0,
-                rule="C01/C02/C08 grammars; each sampled accepted input is also run extended by one token; "
+                rule="C01/C02/C08 grammars, with lazy() at random nodes (also at the top: the only way to accept a proper prefix); each sampled accepted input is also run extended by one token; "
                      "non-trivial = non-empty input"),
     "C04": Spec("C04", CORE + SPANS + ITER + ["RepUnit"] * 3 + EMIT + RECOVER + DECOR + CTX + ["ExtWrap"] * 3 + ["Skip"], obs_errs, sem_obs=lambda r: (r.kind,), emit_bias=0.2,
                 ekinds=("rich", "simple", "empty"), ikinds=("str", "slice"),
@@ -343,10 +343,11 @@ SPECS = {
     "C17": Spec("C17", CORE + ITER + DECOR * 6, obs_full, sem_obs=obs_vv_emis, ekinds=("rich",),
                 nontrivial=lambda g, inp: has_head(g, set(DECOR)),
                 rule="C01/C02 grammars with labelled / as_context / map_err at random nodes, Rich errors; non-trivial = a decoration present"),
-    "C18": Spec("C18", CORE + ITER + RECOVER + ["MapWith"] * 6 + ["FoldlWith", "FoldrWith"] + ["Skip"] * 2, obs_vv, ekinds=("rich",), ikinds=("str", "slice"),
+    "C18": Spec("C18", CORE + ITER + RECOVER + ["MapWith"] * 6 + ["FoldlWith", "FoldrWith"] + ["Skip"] * 2 + ["WithState"] * 3, obs_vv, ekinds=("rich",), ikinds=("str", "slice"),
                 nontrivial=lambda g, inp: len(inp) > 0 and has_head(g, {"MapWith", "FoldlWith", "FoldrWith", "IMapWith"}),
                 rule="C01/C02/C08 grammars with state-observing map_with / foldl_with / foldr_with at random nodes (the inspector "
-                     "hashes every token and snapshots on save), tokens also consumed through InputRef::skip in custom parsers; "
+                     "hashes every token and snapshots on save), tokens also consumed through InputRef::skip in custom parsers, with_state(seed) at random nodes "
+                     "(for grammars containing it only the tie decides: the specification's state is positional); "
                      "non-trivial = an observation present, non-empty input"),
     "C20": Spec("C20", CORE + SPANS + ITER + EMIT + RECOVER + DECOR + CTX + ["ExtWrap", "Skip"], lambda r: (r.kind,), ekinds=("rich", "empty", "cheap", "simple"),
                 ikinds=("str", "slice"), nontrivial=lambda g, inp: True,
@@ -492,7 +493,7 @@ SPECS["C16"].cross = c16_cross
 SPECS["C01"].universe = U()
 SPECS["C02"].universe = U(unary=[lambda x: ["Collect", "CVec", ["IEnum", ["IRep", x, 0, 3]]], lambda x: ["Foldr", ["IRep", x, 0, "inf"], "Empty", 5]],
                           binary=[lambda x, y: ["Collect", "CVec", ["ISep", x, y, 1, 2, 1, 0]], lambda x, y: ["RepUnit", ["ISep", x, y, 0, "inf", 1, 1]]])
-SPECS["C03"].universe = U()
+SPECS["C03"].universe = U(unary=[lambda x: ["Lazy", x]])
 SPECS["C04"].universe = U(unary=[lambda x: ["ToSlice", x], lambda x: ["To", 1, x], lambda x: ["ExtWrap", x], lambda x: ["Validate", "PTrue", 2, x]],
                           binary=[lambda x, y: ["DelimitedBy", x, y, y], lambda x, y: ["RecoverVia", x, y]])
 SPECS["C05"].universe = U(unary=[lambda x: ["Validate", "PTrue", 2, x]], binary=[lambda x, y: ["RecoverVia", x, y]])
@@ -500,7 +501,7 @@ SPECS["C06"].universe = dict(leaves=U_LEAVES, unary=[f for f in U_UNARY if f("An
 SPECS["C08"].universe = U(unary=[lambda x: ["Validate", "PTrue", 2, x]],
                           binary=[lambda x, y: ["RecoverVia", x, y], lambda x, y: ["RecoverSkipRetry", x, "Any", y], lambda x, y: ["RecoverSkipUntil", x, "Any", y, 9]])
 SPECS["C17"].universe = U(unary=[lambda x: ["Labelled", 1, 1, x], lambda x: ["Labelled", 2, 0, x], lambda x: ["MapErr", 3, x]])
-SPECS["C18"].universe = U(leaves=[["Skip", 1]], unary=[lambda x: ["MapWith", "MWState", x], lambda x: ["MapWith", "MWAll", x]])
+SPECS["C18"].universe = U(leaves=[["Skip", 1]], unary=[lambda x: ["MapWith", "MWState", x], lambda x: ["MapWith", "MWAll", x], lambda x: ["WithState", 5, x]])
 SPECS["C20"].universe = U(unary=[lambda x: ["Labelled", 1, 0, x], lambda x: ["MapErr", 3, x], lambda x: ["ExtWrap", x]], binary=[lambda x, y: ["RecoverVia", x, y]])
 def renumber_memo(g):
     """every memoized() call is a distinct parser: give each Memo node its own id"""
